@@ -475,6 +475,8 @@ def run(ctx):
     P("webvtt.WebVTTWriter._convert_positioning", webvtt_settings, functions=[W._convert_positioning],
       contracts={"pycaption.geometry:Size.__str__": _size_str})
     P("webvtt.WebVTTWriter._convert_positioning/verbatim", webvtt_verbatim, functions=[W._convert_positioning])
+    import props.C01_read as RS
+    RS.prove_webvtt_read_skeleton(ctx, clause="layout")      # (reading: the settings of a timing line belong to the cue below it)
     prove_alignment(ctx)
     P("dfxp._convert_layout_to_attributes", layout_attributes, functions=[dfxp_base._convert_layout_to_attributes],
       contracts={"pycaption.geometry:Size.__str__": _size_str})
